@@ -25,7 +25,7 @@ func init() {
 		ID:       "C13",
 		Category: "model_checking",
 		Rule: "first life: a stream in {70 KB text, 300 B, a stream ending in a corrupt-input error, a truncated stream, streams cut inside a dynamic header / inside a stored block's length field / inside its payload, a 70 KB stored stream, every stream of the C03 fault catalogue read to its error, streams started through Reset(src, dict) with a 20- or 40000-byte dictionary (70 KB: the window slides over the place of the dictionary)} x read history in {nothing read, 1 byte, 10 bytes, all but the last byte, to the end/error, exactly 65535 / 65536 bytes (output window full)} x Read size {1 MiB, 7}; optionally Close (the pooled-Reader pattern); then Reset(second source [, dictionary]), while the fresh reference Reader already exists (two instances alive at once); " +
-			"second life: every stream of the short corpus, malformed streams whose back-references reach 1, 2, 100 and 32768 bytes before their own start, containers of the same kind, raw streams with a preset dictionary of 20 and of 40000 bytes (only the last 32 KiB count; copies from its end, from 32000 back and from the part out of reach; malformed back-references into and beyond the dictionary) through flate's Reset(src, dict) against NewReaderDict, and for zlib every combination {first stream with/without dictionary} x {second with/without}; flate, gzip (also member stepping), zlib; second source plain, a 64-byte bufio, one byte per call, or one byte per call through a 16-byte bufio; " +
+			"second life: every stream of the short corpus, malformed streams whose back-references reach 1, 2, 100 and 32768 bytes before their own start, containers of the same kind, raw streams with a preset dictionary of 20 and of 40000 bytes (only the last 32 KiB count; copies from its end, from 32000 back and from the part out of reach; malformed back-references into and beyond the dictionary) through flate's Reset(src, dict) against NewReaderDict, and for zlib every combination {first stream with/without dictionary} x {second with/without} incl. two different dictionaries of one length; every dictionary is handed over in one and the same caller-owned slice that is overwritten after the call; flate, gzip (also member stepping), zlib; second source plain, a 64-byte bufio, one byte per call, or one byte per call through a 16-byte bufio; " +
 			"first source plain, or a 64-byte or default-size *bufio.Reader owned by the caller; oracle: bytes and kind of error of the second life identical to a fresh Reader on the same input, and the first source untouched after Reset (no further Read call; the caller still reads from it exactly what was left); non-trivial = the first life decoded at least one byte",
 		Assumptions: []string{"a freshly constructed Reader is the reference model"},
 		Quick:       TierSpec{MaxDev: -1, Shards: 4, ShardDepth: 3, BudgetS: 600},
@@ -182,6 +182,10 @@ func c13Harness(cfg *Cfg) func(x *mc.Exec) {
 	}
 	dictText := []byte("hello world, hello dictionary, hello again and again")
 	zl = append(zl, container{name: "zlib-dict-needed-but-missing", kind: RK{Kind: "zlib"}, bytes: zlibStream(dictText, 6, dict20)})
+	// a second dictionary of the same length with other contents (the caller's one dictionary buffer, rewritten)
+	dict20b := []byte("HELLO WORLD, HELLO DICTIONARY")[:20]
+	dictTextB := []byte("HELLO WORLD, HELLO DICTIONARY, HELLO AGAIN AND AGAIN")
+	zl = append(zl, container{name: "zlib-dict20b", kind: RK{Kind: "zlib", Dict: dict20b}, bytes: zlibStream(dictTextB, 6, dict20b), payload: dictTextB})
 	// a dictionary longer than the 32 KiB window: only its last 32 KiB count. The payload copies from the end of the
 	// dictionary, from just inside the window (32000 back) and from the part that is out of reach.
 	d40 := pieces.Rand(40000, cfg.Seed+40) // incompressible: the stream is short only if it copies from the dictionary
@@ -262,6 +266,27 @@ func c13Harness(cfg *Cfg) func(x *mc.Exec) {
 		}
 		return src
 	}
+	// Dictionaries are handed over the way a caller with one dictionary buffer does: always in the same slice
+	// (same address; the contents rewritten for every call and overwritten as soon as the call returns). A Reader
+	// may not keep a reference to it, nor recognise "the same dictionary" by its address.
+	scrA, scrB := make([]byte, 40000), make([]byte, 40000)
+	var lent [][]byte
+	lend := func(scr, d []byte) []byte {
+		if d == nil {
+			return nil
+		}
+		copy(scr, d)
+		lent = append(lent, scr[:len(d)])
+		return scr[:len(d)]
+	}
+	takeBack := func() {
+		for _, b := range lent {
+			for i := range b {
+				b[i] = 0x5a
+			}
+		}
+		lent = lent[:0]
+	}
 	return func(x *mc.Exec) {
 		kind := x.Choose(3, "kind")
 		hist := x.Choose(len(histories), "history")
@@ -302,17 +327,20 @@ func c13Harness(cfg *Cfg) func(x *mc.Exec) {
 					first = newC13first(f1.stream, fmode)
 					r = fflate.NewReader(first.reader())
 					if f1.dict != nil {
-						r.(fflate.Resetter).Reset(first.reader(), f1.dict)
+						r.(fflate.Resetter).Reset(first.reader(), lend(scrA, f1.dict))
+						takeBack()
 					}
 					firstRead(r, hist, 70000)
 					closeIt(r)
 					first.snapshot()
-					r.(fflate.Resetter).Reset(mkSrc(d.stream, viaBufio), d.dict)
+					r.(fflate.Resetter).Reset(mkSrc(d.stream, viaBufio), lend(scrA, d.dict))
+					takeBack()
 				}); pi != nil {
 					x.Fail("C13 panic "+pi.Site, "flate first=%s history=%s: %s", f1.name, histories[hist], pi)
 					return
 				}
-				fresh := fflate.NewReaderDict(mkSrc(d.stream, viaBufio), d.dict) // alive at the same time as the reused one
+				fresh := fflate.NewReaderDict(mkSrc(d.stream, viaBufio), lend(scrB, d.dict)) // alive at the same time as the reused one
+				takeBack()
 				got := drainReader(r, pol)
 				want := drainReader(fresh, pol)
 				x.Note(got.FP)
@@ -329,7 +357,8 @@ func c13Harness(cfg *Cfg) func(x *mc.Exec) {
 				first = newC13first(f1.stream, fmode)
 				r = fflate.NewReader(first.reader())
 				if f1.dict != nil {
-					r.(fflate.Resetter).Reset(first.reader(), f1.dict)
+					r.(fflate.Resetter).Reset(first.reader(), lend(scrA, f1.dict))
+					takeBack()
 				}
 				firstRead(r, hist, 70000)
 				closeIt(r)
@@ -413,7 +442,8 @@ func c13Harness(cfg *Cfg) func(x *mc.Exec) {
 			if pi := Guard(func() {
 				var err error
 				first = newC13first(c1.bytes, fmode)
-				zr, err = fzlib.NewReaderDict(first.reader(), c1.kind.Dict)
+				zr, err = fzlib.NewReaderDict(first.reader(), lend(scrA, c1.kind.Dict))
+				takeBack()
 				if err != nil {
 					// first life may legitimately fail to open (missing dictionary): still a used Reader
 					first = newC13first(zl[0].bytes, fmode)
@@ -425,12 +455,14 @@ func c13Harness(cfg *Cfg) func(x *mc.Exec) {
 				firstRead(zr, hist, len(c1.payload))
 				closeIt(zr)
 				first.snapshot()
-				rerr = zr.(fzlib.Resetter).Reset(mkSrc(c2.bytes, viaBufio), d2)
+				rerr = zr.(fzlib.Resetter).Reset(mkSrc(c2.bytes, viaBufio), lend(scrA, d2))
+				takeBack()
 			}); pi != nil {
 				x.Fail("C13 panic "+pi.Site, "zlib first=%s history=%s: %s", c1.name, histories[hist], pi)
 				return
 			}
-			fr, ferr := fzlib.NewReaderDict(mkSrc(c2.bytes, viaBufio), d2)
+			fr, ferr := fzlib.NewReaderDict(mkSrc(c2.bytes, viaBufio), lend(scrB, d2))
+			takeBack()
 			desc := fmt.Sprintf("zlib first=%s(dict=%v) history=%s second=%s(needs dict=%v, given dict=%v) policy=%s bufio=%d", c1.name, c1.kind.Dict != nil, histories[hist], c2.name, c2.kind.Dict != nil, d2 != nil, pol.Name, viaBufio)
 			dcls := fmt.Sprintf("first-dict=%v second-dict=%v", c1.kind.Dict != nil, d2 != nil)
 			if fmt.Sprint(rerr) != fmt.Sprint(ferr) {
